@@ -67,4 +67,12 @@ pub struct Remover {}
     }
 //@end
 
+//@fn id=merge_markers file=code/remover.rs name=merge_markers in="impl Remover" props=C01,C02,C03,C04,C12,C15 stub=only trusted="contract not yet proved"
+//@ret r
+//@requires
+    exists|lo: int, hi: int| wf_forest(vf(ranges@), lo, hi),
+//@ensures label=merge_markers_post props=C01,C02,C03,C04,C12,C15
+    mm_post(vf(ranges@), r@),
+//@end
+
 } // mod remover
